@@ -1,4 +1,5 @@
 //! Conformance drivers for the original network stack (pallas-network).
+mod channel;
 mod mux;
 mod reassembly;
 mod rollback;
@@ -9,6 +10,7 @@ fn main() {
         "rollback-replay" => rollback::replay(&args),
         "rollback-trace" => rollback::trace(&args),
         "mux-trace" => mux::trace(&args),
+        "channel-trace" => channel::trace(&args),
         "reassembly-trace" => reassembly::trace(&args),
         other => pv_core::die(&format!("unknown sub-command {other}")),
     }
